@@ -2,15 +2,16 @@
    this run (gen/GenKDeblock.v) equal the hand-written model's kernels (model/Deblock.v)
    for every byte pattern and strength, and none of their checked operations panics. *)
 From H263V Require Import base.Prelude base.Checked model.Deblock gen.GenKDeblock bridge.KTactics proofs.DeblockKernel.
+#[local] Hint Unfold up_down_ramp clipd1 tdiv : kmodel.
 
 Lemma bridge_k_up_down_ramp x s :
   -16000 <= x <= 16000 -> 0 <= s <= 255 -> k_up_down_ramp x s = Ok (up_down_ramp x s).
 Proof.
-  intros Hx Hs. unfold k_up_down_ramp. ksteps. subst. reflexivity.
+  intros Hx Hs. unfold k_up_down_ramp. ksteps. kfin.
 Qed.
 
 Lemma bridge_k_clipd1 x lim : -32767 <= lim <= 32767 -> k_clipd1 x lim = Ok (clipd1 x lim).
-Proof. intros Hl. unfold k_clipd1. ksteps. subst. reflexivity. Qed.
+Proof. intros Hl. unfold k_clipd1. ksteps. kfin. Qed.
 
 Lemma bridge_k_process a b c d s :
   byte a -> byte b -> byte c -> byte d -> 1 <= s <= 12 ->
